@@ -616,9 +616,11 @@ func zzC10Regions(t *zzC10Table, ord []int) (r zzC10Reg) {
 	return
 }
 
-// dirty: can the call be inside a region that depends on symbolic bits
+// dirty: can the call be inside an open known-finding region that depends on symbolic bits. (The
+// around-skipped region was fixed in slip commit 0ee40b9: such calls now run in the common
+// sequence, last, still announcing the region with vrt.Carve - a no-op for a fixed finding.)
 func (g *zzC10Gen) dirty(r zzC10Reg) bool {
-	return r.possSkip || (g.mode&4 != 0 && r.possPrimNext)
+	return g.mode&4 != 0 && r.possPrimNext
 }
 
 const (
@@ -670,7 +672,7 @@ func (g *zzC10Gen) checkCall(scope *slip.Scope, t *zzC10Table, argClasses []int,
 		vrt.Carve(zzC10CarveNoPri, nop)
 		vrt.Carve(zzC10CarvePrim, inPrim)
 	case 2:
-		if inSkip || nop || inPrim {
+		if nop || inPrim { // the around-skipped region is fixed (0ee40b9): compared again
 			zzC10St.trace = nil
 			zzC10St.used = [zzC10MaxID]bool{}
 			zzC10Invoke(scope, g.name, args)
@@ -831,7 +833,7 @@ func VerifC10Dispatch(nspec, fixed, sym, mode, rot int) {
 	scope := slip.NewScope()
 	g := &zzC10Gen{name: zzC10G1, aux: zzC10Aux1, arity: 1, sel: zzC10Select(nspec), mode: mode}
 	t := g.build(scope, fixed, sym)
-	var clean, dirty, nopri [][]int
+	var clean, late, dirty, nopri [][]int
 	for i := 0; i < zzC10NArg; i++ {
 		ac := []int{(i + rot) % zzC10NArg}
 		reg := zzC10Regions(t, g.order(ac))
@@ -840,15 +842,17 @@ func VerifC10Dispatch(nspec, fixed, sym, mode, rot int) {
 			nopri = append(nopri, ac)
 		case g.dirty(reg):
 			dirty = append(dirty, ac)
+		case reg.possSkip:
+			late = append(late, ac)
 		default:
 			clean = append(clean, ac)
 		}
 	}
-	g.runCalls(scope, t, clean, dirty, nopri)
+	g.runCalls(scope, t, append(clean, late...), dirty, nopri)
 }
 
-// runCalls: choice "sel": 0 = all clean calls in sequence; k = the k-th call that may be inside the
-// around-skipped region, alone, carved; last = the calls without applicable primary (entirely
+// runCalls: choice "sel": 0 = all clean calls in sequence; k = the k-th call that may be inside an
+// open region depending on symbolic bits, alone, carved; last = the calls without applicable primary (entirely
 // inside that region: the main run stops at the first carve, the probe run checks it).
 func (g *zzC10Gen) runCalls(scope *slip.Scope, t *zzC10Table, clean, dirty, nopri [][]int) {
 	n := 1 + len(dirty)
@@ -860,7 +864,7 @@ func (g *zzC10Gen) runCalls(scope *slip.Scope, t *zzC10Table, clean, dirty, nopr
 	case sel == 0:
 		var called [][]int
 		for _, ac := range clean {
-			g.checkCall(scope, t, ac, "x", 0)
+			g.checkCall(scope, t, ac, "x", 1)
 			called = append(called, ac)
 			g.checkInv(t, called, false)
 		}
@@ -881,7 +885,7 @@ func VerifC10Two(nspec, fixed, sym, mode, argMask, rot int) {
 	g := &zzC10Gen{name: zzC10G2, aux: zzC10Aux2, arity: 2, sel: zzC10Select(nspec), mode: mode}
 	t := g.build(scope, fixed, sym)
 	al := zzC10ArgList(argMask)
-	var clean, dirty, nopri [][]int
+	var clean, late, dirty, nopri [][]int
 	np := len(al) * len(al)
 	for i := 0; i < np; i++ {
 		k := (i + rot) % np
@@ -892,11 +896,13 @@ func VerifC10Two(nspec, fixed, sym, mode, argMask, rot int) {
 			nopri = append(nopri, ac)
 		case g.dirty(reg):
 			dirty = append(dirty, ac)
+		case reg.possSkip:
+			late = append(late, ac)
 		default:
 			clean = append(clean, ac)
 		}
 	}
-	g.runCalls(scope, t, clean, dirty, nopri)
+	g.runCalls(scope, t, append(clean, late...), dirty, nopri)
 }
 
 // zzC10Mutate applies one change of the method table. op 0: defmethod (adds or replaces the slot,
@@ -1042,7 +1048,7 @@ func VerifC10Classes(fixed, sym, mode, rot int) {
 	cls.args = append(cls.args, slip.Fixnum(11))
 	g := &zzC10Gen{name: zzC10G1, aux: zzC10Aux1, arity: 1, mode: mode, cls: cls}
 	t := g.build(scope, fixed, sym)
-	var clean, dirty, nopri [][]int
+	var clean, late, dirty, nopri [][]int
 	for i := 0; i < len(cls.args); i++ {
 		ac := []int{(i + rot) % len(cls.args)}
 		reg := zzC10Regions(t, g.order(ac))
@@ -1051,11 +1057,13 @@ func VerifC10Classes(fixed, sym, mode, rot int) {
 			nopri = append(nopri, ac)
 		case g.dirty(reg):
 			dirty = append(dirty, ac)
+		case reg.possSkip:
+			late = append(late, ac)
 		default:
 			clean = append(clean, ac)
 		}
 	}
-	g.runCalls(scope, t, clean, dirty, nopri)
+	g.runCalls(scope, t, append(clean, late...), dirty, nopri)
 }
 
 // VerifC10Fastpath: histories over the restricted alphabet {define/redefine the primary on all-t,
